@@ -1,6 +1,7 @@
 //! Engine: tiers, verdicts, per-run context, parallel proptest runner, fixed-case runner,
 //! evidence writer, replay and known-findings handling.
 
+pub mod fuzz;
 pub mod known;
 pub mod stat;
 
@@ -401,6 +402,14 @@ impl Ctx {
     pub fn note(&self, sub: &str, note: String) {
         let mut a = Acc::new();
         a.inner.notes.push(note);
+        self.merge_acc(sub, a);
+    }
+
+    /// account executions done by an external engine (libFuzzer) under sub-check `sub`
+    pub fn add_evaluations(&self, sub: &str, n: u64, sample: Value) {
+        let mut a = Acc::new();
+        a.inner.evaluations = n;
+        a.inner.samples_trivial.push(sample);
         self.merge_acc(sub, a);
     }
 
